@@ -1,31 +1,100 @@
 """Per-property wiring for bin/check: which Lean modules hold the property theorems,
 which correspondence sub-commands tie the model to the code, which direct searches run."""
+import json
 
 TB_COMMON = [
-    "extractor /verif/extract (go/packages + go/ssa reading of /repo's current source)",
+    "extractor /verif/extract (go/packages + go/ssa reading of /repo's current source) and emitter bin/emit_lean.py",
     "correspondence harness /verif/harness (calls the real code in-process, -tags verif) and the Lean driver's line protocol",
 ]
+
+
+def post_observed_statuses(prop, facts_path, reports):
+    """Every status observed for a lint in any run must lie in the extracted status set of its body
+    plus {NA, NE, fatal}: an observation outside it is an extractor defect or a new return path."""
+    out = []
+    try:
+        facts = json.load(open(facts_path))
+    except Exception as e:
+        return [("facts.json unreadable: %s" % e, {}, "facts", False)]
+    sets = {r["name"]: set(r.get("statuses") or []) | {1, 2, 7} for r in facts["registrations"]}
+    for rep in reports:
+        obs = (rep.get("extra") or {}).get("observed_statuses") or {}
+        for name, sts in obs.items():
+            if name not in sets:
+                continue
+            bad = [s for s in sts if s not in sets[name]]
+            if bad:
+                out.append(("lint %s was observed returning status %s, outside the status set %s extracted from its source" % (name, bad, sorted(sets[name])),
+                            {"lint": name, "observed": sts, "extracted": sorted(sets[name])}, "observed-outside-extracted:" + name, True))
+    return out
+
 
 PROPS = {
     "C01": {
         "proofs": ["ZlProofs.Props.C01"],
         "corr": ["framework"],
-        "search": [],
+        "search": [("sweep", "C01")],
         "trusted_base": TB_COMMON,
-        "assumptions": ["no-hang is enforced only as a harness timeout"],
+        "assumptions": ["no-hang is enforced only as a harness timeout",
+                        "well-behavedness (WB) of the real rule bodies is established by the extracted status sets (C06) and, for panics, by C02"],
     },
     "C03": {
         "proofs": ["ZlProofs.Props.C03"],
         "corr": ["framework"],
-        "search": [],
+        "search": ["c03"],
         "trusted_base": TB_COMMON,
         "assumptions": ["A-TIME: Go time.Time comparisons are by instant", "A-PARSE: the parser's mapping of encoded times to instants"],
     },
     "C04": {
         "proofs": ["ZlProofs.Props.C04"],
         "corr": ["framework"],
+        "search": [("sweep", "C04")],
+        "trusted_base": TB_COMMON,
+        "assumptions": ["the scope predicates are modelled over a parsed view (EKU OIDs, policy OIDs, rfc822 names, otherNames)"],
+    },
+    "C06": {
+        "proofs": ["ZlProofs.Props.C06"],
+        "corr": [],
+        "search": [("sweep", "C06")],
+        "post": [post_observed_statuses],
+        "trusted_base": TB_COMMON + ["the SSA status-set analysis of extract/status.go (every return path of every Execute, through helpers and pointer parameters)"],
+        "assumptions": [],
+    },
+    "C07": {
+        "proofs": ["ZlProofs.Props.C07"],
+        "corr": [],
+        "search": ["c07"],
+        "trusted_base": TB_COMMON,
+        "assumptions": ["rests on C05's footprint facts: no lint writes the object or package-level state"],
+    },
+    "C08": {
+        "proofs": ["ZlProofs.Props.C08"],
+        "corr": ["filter"],
+        "search": [],
+        "trusted_base": TB_COMMON,
+        "assumptions": ["the regexp is modelled as the predicate it denotes (the harness sends the set of names it matches)",
+                        "strings.TrimSpace is modelled on ASCII blanks"],
+    },
+    "C12": {
+        "proofs": ["ZlProofs.Props.C12"],
+        "corr": ["filter"],
         "search": [],
         "trusted_base": TB_COMMON,
         "assumptions": [],
+    },
+    "C13": {
+        "proofs": ["ZlProofs.Props.C13"],
+        "corr": ["codec"],
+        "search": ["meta"],
+        "trusted_base": TB_COMMON,
+        "assumptions": ["CLI flag plumbing is covered by C15"],
+    },
+    "C14": {
+        "proofs": ["ZlProofs.Props.C14"],
+        "corr": ["codec"],
+        "search": [],
+        "trusted_base": TB_COMMON,
+        "assumptions": ["A-JSON: encoding/json's string escaping and invalid-UTF-8 replacement (validated per byte by the harness oracle, abstracted as `sanitize` in the theorem)"],
+        "partial": "the JSON string codec itself is not modelled",
     },
 }
